@@ -14,7 +14,7 @@ import (
 var Rules = []report.Rule{
 	{ID: "L1", Floor: 14, Props: []string{"C18"}, Text: "every method of a stack type (slice of an emitter interface that implements that interface) is one range over the receiver invoking the same-named method once on each element with all parameters in order, nothing else"},
 	{ID: "L2", Floor: 4, Props: []string{"C18"}, Text: "every XInit of the emitter stack builds a stack with exactly one e.XInit(same arguments) per element, in order"},
-	{ID: "L3", Floor: 3, Props: []string{"C18"}, Text: "EmitterStack: 0 -> no-op emitter, 1 -> the argument, n -> every argument exactly once (nested stacks spliced)"},
+	{ID: "L3", Floor: 3, Props: []string{"C18", "C12"}, Text: "EmitterStack: 0 -> no-op emitter, 1 -> the argument, n -> every argument exactly once (nested stacks spliced)"},
 	{ID: "L4", Floor: 3, Props: []string{"C04"}, Text: "*PanicError implements error, has an exported interface-typed field Value, and is opaque to errors.Is/As/Unwrap (the scheduler loop tests job errors with errors.Is on its own goroutine, where nothing recovers: the recovered value's methods must not be reachable from there)"},
 }
 
